@@ -16,7 +16,8 @@ NOTFOUND = {"PidRefsDoesNotExist", "RefsFileExistsButCidObjMissing", "OrphanPidR
 def crash_states(case):
     """Recording run of the call; returns (base run, [(first site index, site op, tree)]) for the
     distinct kernel-visible trees seen before each file-system operation and after the last."""
-    op, state, label = case
+    op, state, label = case[:3]
+    fscen.configure(case[3] if len(case) > 3 else None)
     c = fscen.ctx()
     root = os.path.join(common.scratch(), "fstore")
     init = fscen.init_tree(state)
@@ -35,7 +36,7 @@ def crash_states(case):
 
 
 def _job(case):
-    op, state, label = case
+    op, state, label = case[:3]
     base, states, init, root, c = crash_states(case)
     kind = op[0]
     target = op[1] if kind in ("store", "tag", "delete", "store_meta", "delete_meta") else None
@@ -117,7 +118,8 @@ def _job(case):
                 viol.append(("metadata call changed the pid's object after the crash", {}))
         for what, det in viol:
             det = dict(det)
-            det.update({"call": list(op), "state": state, "crash_before_site": i, "site_op": list(sop)})
+            det.update({"call": list(op), "state": state, "crash_before_site": i, "site_op": list(sop),
+                        "config": case[3] if len(case) > 3 else None})
             res["violations"].append(({"case": label, "crash_before": name, "what": what}, det))
     return res
 
@@ -139,7 +141,7 @@ def make_store_on(root, tree):
 
 def main(tier):
     rep = common.Report("C10", tier, "model_checking")
-    cases = fscen.CASES + fscen.THOROUGH_CASES + fscen.LONG_LIST_CASES
+    cases = fscen.CASES + fscen.THOROUGH_CASES + fscen.LONG_LIST_CASES + fscen.SHALLOW_CASES
     pts = states = 0
     per = {}
     classes = set()
@@ -194,7 +196,7 @@ def main(tier):
 
 def replay(rep):
     r = rep["replay"]
-    case = (tuple(r["call"]), r["state"], "replay")
+    case = (tuple(r["call"]), r["state"], "replay") + ((r["config"],) if r.get("config") else ())
     base, states, init, root, c = crash_states(case)
     for i, sop, tree in states:
         if i == r["crash_before_site"]:
